@@ -258,7 +258,71 @@ class EasyMp4X(XKind):
         return [("easymp4", ";".join(rows))]
 
 
-XKINDS = [Mp4X(), AsfX(), EasyMp4X()]
+def _hx(s):
+    return s.encode("utf-8").hex()
+
+
+class EasyId3X(XKind):
+    """all EasyID3 kinds of props/c16.py (exact keys, performer:*, replaygain_*, glob keys with case variants, typed roles) share
+    the driver kind `easyid3`; the native ID3 is compared after every operation"""
+    name = "easyid3"; base_name = "EasyID3"
+    observe = (["items"], ["len"], ["native"])
+    extra_keys = [["s", k] for k in ("title", "TITLE", "genre", "date", "originaldate", "website", "musicbrainz_trackid", "barcode",
+                                      "performer", "performer:guitar", "PERFORMER:guitar", "performer:Guitar", "performer:", "performer:*",
+                                      "replaygain_album_gain", "replaygain_album_peak", "REPLAYGAIN_ALBUM_GAIN", "replaygain__gain",
+                                      "replaygain_*_gain", "replaygain_*_peak", "replaygain_track_peak", "albumartistsort", "TIT2",
+                                      "replaygain_album_pea\u212a")]
+    extra_values = [["s", "Rock"], ["l", [["s", "Rock"], ["s", "Pop Rock"]]], ["s", "2004-01-02T03:04:05"], ["s", "2004-01-02 03"],
+                    ["l", [["s", "2004"], ["s", "2005-06"]]], ["s", "+1.5 dB"], ["s", "-3.25"], ["s", "0.5"], ["s", "1.999"],
+                    ["s", "1.999999"], ["s", "63.999 dB"], ["s", "64"], ["s", "-64"], ["s", "-64.1 dB"], ["s", "0"], ["s", " 0.25 "],
+                    ["s", ""], ["s", "  "], ["s", "garbage"], ["s", "1e1"], ["s", "2"], ["s", "-0.5"], ["l", [["s", "http://a"], ["s", "http://b"], ["s", "http://a"]]],
+                    ["s", "abc"], ["s", "\u00e9"], ["l", [["i", 3]]], ["l", [["n"]]], ["l", [["s", "1"], ["s", "2"]]], ["l", []],
+                    ["s", "17"], ["s", "(17)"], ["s", "CR"], ["s", "0.1234567"], ["s", "x y"]]
+
+    def __init__(self, base_name="EasyID3"):
+        self.base_name = base_name
+
+    def native(self, obj):
+        import mutagen.id3 as I
+        from mutagen.id3._frames import TimeStampTextFrame
+        out = []
+        for hk, f in obj._EasyID3__id3.items():
+            if isinstance(f, TimeStampTextFrame): d = "S%d:%s" % (int(f.encoding), ".".join(_hx(x.text) for x in f.text))
+            elif isinstance(f, I.TMCL): d = "M%d:%s" % (int(f.encoding), ".".join(_hx(a) + "-" + _hx(b) for a, b in f.people))
+            elif isinstance(f, I.TextFrame): d = "T%d:%s" % (int(f.encoding), ".".join(_hx(x) for x in f.text))
+            elif isinstance(f, I.UFID): d = "U%s:%s" % (_hx(f.owner), f.data.hex())
+            elif isinstance(f, I.WOAR): d = "W" + _hx(f.url)
+            elif isinstance(f, I.RVA2): d = "R%s:%d:%d:%d" % (_hx(f.desc), f.channel, round(f.gain * 1000000), round(f.peak * 1000000))
+            else: d = "?" + type(f).__name__
+            out.append((_hx(hk), d))
+        return ";".join("%s~%s" % it for it in sorted(out))
+
+    def tables(self, ctx):
+        if self.base_name != "EasyID3": return []
+        from mutagen.easyid3 import EasyID3 as E
+        assert list(E.Get.keys()) == list(E.Set.keys()) == list(E.Delete.keys())
+        assert sorted(E.List.keys()) == ["performer:*", "replaygain_*_gain"]
+        assert E.GetFallback is None and E.SetFallback is None and E.DeleteFallback is None and E.ListFallback is None
+        rows = []
+        for k, f in E.Get.items():
+            assert "?" not in k and "[" not in k
+            q = f.__qualname__
+            c = dict(zip(f.__code__.co_freevars, [x.cell_contents for x in (f.__closure__ or [])]))
+            for reg, suffix in ((E.Set, ("setter", "_set")), (E.Delete, ("deleter", "_delete"))):
+                want = q.replace("getter", suffix[0]).replace("_get", suffix[1])
+                assert reg[k].__qualname__ == want, (k, reg[k].__qualname__, want)
+            if "RegisterTextKey" in q: kind = "text:" + _hx(c["frameid"])
+            elif "RegisterTXXXKey" in q: kind = "txxx:" + _hx(c["frameid"][5:])
+            else:
+                kind = {"genre_get": "genre", "date_get": "date:" + _hx("TDRC"), "original_date_get": "date:" + _hx("TDOR"),
+                        "performer_get": "performer", "musicbrainz_trackid_get": "trackid", "website_get": "website",
+                        "gain_get": "gain", "peak_get": "peak"}.get(q, q)
+            rows.append("%s:%s" % (_hx(k), kind))
+        return [("easyid3", ";".join(rows))]
+
+
+XKINDS = [Mp4X(), AsfX(), EasyMp4X(), EasyId3X("EasyID3"), EasyId3X("EasyID3:performer"), EasyId3X("EasyID3:replaygain"),
+          EasyId3X("EasyID3:glob-case"), EasyId3X("EasyID3:performer-roles")]
 
 
 # ---------------------------------------------------------------------------------------
@@ -324,6 +388,12 @@ def run(ctx, only=None):
                 j = got.index("Enotimplemented")
                 got = got[:j]; exp = exp[:j]
                 ctx.hist["tie-x:%s:outside-model" % xk.name] += 1
+            pj = next((j for j in range(min(len(got), len(exp))) if got[j] != exp[j]), None)
+            if pj is not None and got[pj].startswith("P") and exp[pj].startswith("P"):
+                # popitem took another present key (the real keys() of EasyID3 comes out of a hash set; popitem is angelic in
+                # the theorems): the comparison stops here
+                got = got[:pj]; exp = exp[:pj]
+                ctx.hist["tie-x:%s:popitem-other-key" % xk.name] += 1
             if got != exp:
                 i = next((j for j in range(min(len(got), len(exp))) if got[j] != exp[j]), min(len(got), len(exp)))
                 per = 1 + len(xk.observe)
